@@ -872,10 +872,12 @@ where
         // assigned-fixed scalar.
         let scalar_as_big = scalar.to_biguint();
         if scalar_as_big.bits() <= 128 {
+            // `to_u64_digits` is little-endian: compose the (at most two) limbs.
             let n = scalar_as_big
                 .to_u64_digits()
                 .iter()
-                .fold(0u128, |acc, limb| acc + *limb as u128);
+                .rev()
+                .fold(0u128, |acc, limb| (acc << 64) | *limb as u128);
 
             // `mul_by_u128` is incomplete (it cannot take the identity).
             // Change the base in case it is the identity and then change
